@@ -145,4 +145,251 @@ func init() {
 			}
 		}
 	}})
+	// ---- C01 / C07: two contracts revised by one transaction, one of them renewed by the next
+	twoThenRenew := probeRow{"K6-v2-two-revised-one-renewed", func(w *World, n *Node) {
+		sc := n.fork()
+		if !sc.v2ok() {
+			return
+		}
+		revisable := func(c *Contract) bool {
+			fc := sc.store.V2FC[c.id].V2FileContract
+			return fc.ProofHeight > sc.child()+1 && fc.RevisionNumber < types.MaxRevisionNumber-4
+		}
+		a := sc.pickLive(true, revisable)
+		if a == nil {
+			return
+		}
+		sumOf := func(fc types.V2FileContract) types.Currency { return fc.RenterOutput.Value.Add(fc.HostOutput.Value) }
+		ea := sc.store.V2FC[a.id]
+		b := sc.pickLive(true, func(c *Contract) bool {
+			return c.id != a.id && revisable(c) && sumOf(sc.store.V2FC[c.id].V2FileContract) != sumOf(ea.V2FileContract)
+		})
+		funder, okf := pickSC(w, sc.ownedSC(false, true))
+		if b == nil || !okf {
+			return
+		}
+		eb := sc.store.V2FC[b.id]
+		rev := func(c *Contract, e types.V2FileContractElement) types.V2FileContractRevision {
+			r := e.V2FileContract
+			r.RevisionNumber++
+			r.FileMerkleRoot[2] ^= 1
+			w.signContractV2(sc.s, &r, c.renterKey(), c.hostKey())
+			return types.V2FileContractRevision{Parent: e.Copy(), Revision: r}
+		}
+		ra, rb := rev(a, ea), rev(b, eb)
+		t1 := types.V2Transaction{FileContractRevisions: []types.V2FileContractRevision{rb, ra}}
+		renewal := func(finalRenter, finalHost types.Currency) (types.V2Transaction, bool) {
+			nc := ra.Revision
+			nc.RevisionNumber = 0
+			nc.ProofHeight = sc.child() + 30
+			nc.ExpirationHeight = nc.ProofHeight + 2
+			nc.RenterOutput.Value, nc.HostOutput.Value, nc.MissedHostValue, nc.TotalCollateral = types.Siacoins(1), types.ZeroCurrency, types.ZeroCurrency, types.ZeroCurrency
+			ren := &types.V2FileContractRenewal{NewContract: nc, FinalRenterOutput: ra.Revision.RenterOutput, FinalHostOutput: ra.Revision.HostOutput}
+			ren.FinalRenterOutput.Value, ren.FinalHostOutput.Value = finalRenter, finalHost
+			w.signContractV2(sc.s, &ren.NewContract, a.renterKey(), a.hostKey())
+			h := sc.s.RenewalSigHash(*ren)
+			ren.RenterSignature, ren.HostSignature = a.renterKey().SignHash(h), a.hostKey().SignHash(h)
+			cost := nc.RenterOutput.Value.Add(sc.s.V2FileContractTax(nc))
+			if funder.SiacoinOutput.Value.Cmp(cost) < 0 {
+				return types.V2Transaction{}, false
+			}
+			t2 := types.V2Transaction{FileContractResolutions: []types.V2FileContractResolution{{Parent: ea.Copy(), Resolution: ren}},
+				SiacoinInputs: []types.V2SiacoinInput{{Parent: funder.Copy()}}}
+			if ch := funder.SiacoinOutput.Value.Sub(cost); !ch.IsZero() {
+				t2.SiacoinOutputs = []types.SiacoinOutput{{Value: ch, Address: funder.SiacoinOutput.Address}}
+			}
+			return t2, w.signAllV2(sc.s, &t2)
+		}
+		what := fmt.Sprintf("one transaction revises v2 contracts %v (holding %v) and %v (holding %v), the next transaction of the block renews the second", b.id, sumOf(eb.V2FileContract), a.id, sumOf(ea.V2FileContract))
+		if t2, ok := renewal(ra.Revision.RenterOutput.Value, ra.Revision.HostOutput.Value); ok {
+			verr, ok := sc.offer(nil, []types.V2Transaction{t1, t2}, offerOpt{})
+			w.expect(w.propAmong("C01", "C07"), "K6-two-revised-renewal-honest", verr, ok, true, what+", paying out exactly what it holds")
+		}
+		// the renewal pays out what the *other* contract holds
+		other := sumOf(rb.Revision)
+		if t2, ok := renewal(other, types.ZeroCurrency); ok {
+			verr, ok := sc.offer(nil, []types.V2Transaction{t1, t2}, offerOpt{})
+			w.expect(w.propAmong("C01", "C07"), "K6-two-revised-renewal-other-sum", verr, ok, false, what+", paying out what the first one holds")
+		}
+	}}
+	registerRows("C01", twoThenRenew)
+	registerRows("C07", twoThenRenew)
+
+	// ---- C02: one transaction renews the same contract twice
+	registerRows("C02", probeRow{"D5-v2-renewed-twice-in-txn", func(w *World, n *Node) {
+		sc := n.fork()
+		if !sc.v2ok() {
+			return
+		}
+		c := sc.pickLive(true, func(c *Contract) bool { return sc.store.V2FC[c.id].V2FileContract.ProofHeight > sc.child()+1 })
+		funder, okf := pickSC(w, sc.ownedSC(false, true))
+		if c == nil || !okf {
+			return
+		}
+		e := sc.store.V2FC[c.id]
+		cur := e.V2FileContract
+		mk := func(salt byte) types.V2FileContractResolution {
+			nc := cur
+			nc.RevisionNumber = 0
+			nc.ProofHeight = sc.child() + 30 + uint64(salt)
+			nc.ExpirationHeight = nc.ProofHeight + 2
+			nc.RenterOutput.Value, nc.HostOutput.Value, nc.MissedHostValue, nc.TotalCollateral = types.Siacoins(1), types.ZeroCurrency, types.ZeroCurrency, types.ZeroCurrency
+			ren := &types.V2FileContractRenewal{NewContract: nc, FinalRenterOutput: cur.RenterOutput, FinalHostOutput: cur.HostOutput}
+			w.signContractV2(sc.s, &ren.NewContract, c.renterKey(), c.hostKey())
+			h := sc.s.RenewalSigHash(*ren)
+			ren.RenterSignature, ren.HostSignature = c.renterKey().SignHash(h), c.hostKey().SignHash(h)
+			return types.V2FileContractResolution{Parent: e.Copy(), Resolution: ren}
+		}
+		one := types.Siacoins(1).Add(sc.s.V2FileContractTax(types.V2FileContract{RenterOutput: types.SiacoinOutput{Value: types.Siacoins(1)}}))
+		build := func(res ...types.V2FileContractResolution) (types.V2Transaction, bool) {
+			cost := one.Mul64(uint64(len(res)))
+			if funder.SiacoinOutput.Value.Cmp(cost) < 0 {
+				return types.V2Transaction{}, false
+			}
+			t := types.V2Transaction{FileContractResolutions: res, SiacoinInputs: []types.V2SiacoinInput{{Parent: funder.Copy()}}}
+			if ch := funder.SiacoinOutput.Value.Sub(cost); !ch.IsZero() {
+				t.SiacoinOutputs = []types.SiacoinOutput{{Value: ch, Address: funder.SiacoinOutput.Address}}
+			}
+			return t, w.signAllV2(sc.s, &t)
+		}
+		if t, ok := build(mk(0)); ok {
+			verr, ok := sc.offer(nil, []types.V2Transaction{t}, offerOpt{})
+			w.expect("C02", "D5-v2-renewed-once-control", verr, ok, true, fmt.Sprintf("v2 contract %v renewed once", c.id))
+		}
+		for _, same := range []bool{true, false} {
+			second := mk(1)
+			if same {
+				second = mk(0)
+			}
+			if t, ok := build(mk(0), second); ok {
+				verr, ok := sc.offer(nil, []types.V2Transaction{t}, offerOpt{})
+				w.expect("C02", "D5-v2-renewed-twice-in-txn", verr, ok, false, fmt.Sprintf("one transaction carries two renewals of v2 contract %v (identical=%v), each fully signed and funded", c.id, same))
+			}
+		}
+	}})
+
+	// ---- C02 / C04: an element spent on this fork, presented again as unspent with every proof it ever had
+	oldProofs := probeRow{"D4-spent-with-older-proofs", func(w *World, n *Node) {
+		sc := n.fork()
+		if !sc.v2ok() {
+			return
+		}
+		t := w.tape
+		prop := w.propAmong("C02", "C04")
+		// siafunds: move an owned output to a fresh leaf at the end of the accumulator
+		for _, id := range sc.store.sortedSF() {
+			e := sc.store.SF[id]
+			wl, ai := w.ownerOf(e.SiafundOutput.Address)
+			if wl == nil || !wl.canSatisfyNow(sc.s, ai) {
+				continue
+			}
+			spend := func(p types.SiafundElement) (types.V2Transaction, bool) {
+				tx := types.V2Transaction{SiafundInputs: []types.V2SiafundInput{{Parent: p, ClaimAddress: e.SiafundOutput.Address}}, SiafundOutputs: []types.SiafundOutput{{Value: p.SiafundOutput.Value, Address: e.SiafundOutput.Address}}}
+				return tx, w.signAllV2(sc.s, &tx)
+			}
+			t0, ok := spend(e.Copy())
+			if !ok || sc.mine(nil, []types.V2Transaction{t0}) != nil {
+				return
+			}
+			nid := t0.SiafundOutputID(t0.ID(), 0)
+			var history []types.SiafundElement
+			for k := t.Range(1, 7); k >= 0; k-- {
+				cur, ok := sc.store.SF[nid]
+				if !ok {
+					return
+				}
+				history = append(history, cur.Copy())
+				if k > 0 && !sc.extend(sc.nextTimestamp()) {
+					return
+				}
+			}
+			t1, ok := spend(history[len(history)-1].Copy())
+			if !ok || sc.mine(nil, []types.V2Transaction{t1}) != nil {
+				return
+			}
+			for k := t.Range(0, 2); k > 0; k-- {
+				if !sc.extend(sc.nextTimestamp()) {
+					return
+				}
+			}
+			for i := range history {
+				tx, ok := spend(history[i].Copy())
+				if !ok {
+					return
+				}
+				verr, ok := sc.offer(nil, []types.V2Transaction{tx}, offerOpt{})
+				w.expect(prop, "D4-siafund-spent-older-proof", verr, ok, false, fmt.Sprintf("siafund output %v (leaf %d) was spent on this fork; it is presented again as unspent with the proof it had %d blocks before the spend (%d hashes)", nid, history[i].StateElement.LeafIndex, len(history)-1-i, len(history[i].StateElement.MerkleProof)))
+			}
+			break
+		}
+		// the same for a siacoin output
+		if e, ok := pickSC(w, sc.ownedSC(false, true)); ok {
+			t0, ok := w.spendV2(sc.s, []types.SiacoinElement{e}, e.SiacoinOutput.Address)
+			if !ok || sc.mine(nil, []types.V2Transaction{t0}) != nil {
+				return
+			}
+			nid := t0.SiacoinOutputID(t0.ID(), 0)
+			var history []types.SiacoinElement
+			for k := t.Range(1, 7); k >= 0; k-- {
+				cur, ok := sc.store.SC[nid]
+				if !ok {
+					return
+				}
+				history = append(history, cur.Copy())
+				if k > 0 && !sc.extend(sc.nextTimestamp()) {
+					return
+				}
+			}
+			t1, ok := w.spendV2(sc.s, []types.SiacoinElement{history[len(history)-1]}, e.SiacoinOutput.Address)
+			if !ok || sc.mine(nil, []types.V2Transaction{t1}) != nil {
+				return
+			}
+			for i := range history {
+				tx, ok := w.spendV2(sc.s, []types.SiacoinElement{history[i]}, e.SiacoinOutput.Address)
+				if !ok {
+					return
+				}
+				verr, ok := sc.offer(nil, []types.V2Transaction{tx}, offerOpt{})
+				w.expect(prop, "D4-siacoin-spent-older-proof", verr, ok, false, fmt.Sprintf("siacoin output %v was spent on this fork; it is presented again as unspent with the proof it had %d blocks before the spend", nid, len(history)-1-i))
+			}
+		}
+	}}
+	registerRows("C02", oldProofs)
+	registerRows("C04", oldProofs)
+
+	// ---- C02 / C07: an empty v1 contract proven by two transactions of one block
+	emptyTwice := probeRow{"K3-v1-empty-contract-proven-twice", func(w *World, n *Node) {
+		sc := n.fork()
+		if !sc.v1ok() {
+			return
+		}
+		c := sc.pickLive(false, func(c *Contract) bool {
+			fc := sc.store.FC[c.id].FileContract
+			return fc.Filesize == 0 && fc.WindowStart <= sc.child()+12 && fc.WindowEnd > sc.child() && fc.WindowEnd < w.net.HardforkV2.RequireHeight
+		})
+		if c == nil {
+			return
+		}
+		fc := sc.store.FC[c.id].FileContract
+		if at := max(fc.WindowStart, sc.child()); at >= fc.WindowEnd || !sc.advanceTo(at) || !sc.v1ok() {
+			return
+		}
+		if sc.child() < w.net.HardforkStorageProof.Height {
+			return // before that hardfork an empty contract is proven with a leaf like any other
+		}
+		sp := types.StorageProof{ParentID: c.id}
+		verr, ok := sc.offer(v1Txn(sp), nil, offerOpt{})
+		w.expect("C07", "K3-v1-empty-contract-control", verr, ok, true, fmt.Sprintf("empty contract %v proven once inside its window", c.id))
+		if verr != nil {
+			return
+		}
+		prop := w.propAmong("C02", "C07")
+		t2 := types.Transaction{StorageProofs: []types.StorageProof{sp}, ArbitraryData: [][]byte{{1}}}
+		verr, ok = sc.offer([]types.Transaction{{StorageProofs: []types.StorageProof{sp}}, t2}, nil, offerOpt{})
+		w.expect(prop, "D5-v1-empty-two-proofs-two-txns", verr, ok, false, fmt.Sprintf("two transactions of one block prove the empty contract %v", c.id))
+		verr, ok = sc.offer([]types.Transaction{{StorageProofs: []types.StorageProof{sp, sp}}}, nil, offerOpt{})
+		w.expect(prop, "D5-v1-empty-two-proofs-one-txn", verr, ok, false, fmt.Sprintf("one transaction proves the empty contract %v twice", c.id))
+	}}
+	registerRows("C02", emptyTwice)
+	registerRows("C07", emptyTwice)
 }
